@@ -567,6 +567,31 @@ enum Req {
     CSet(&'static str, u64, u64),
     Delete(&'static str),
     PDelete(&'static str),
+    Import(&'static str),
+}
+
+const IMPORTS: [&str; 4] = [
+    r#"{"data":{"t":{"a":{"v":7}}}}"#,
+    r#"{"data":{"t":{"a":{"t":{"b":{"v":{"Cas":[1,5]}}}},"i":{"t":{"x":{"v":3}}}}}}"#,
+    r#"{"data":{"t":{"b":{"v":0},"a":{"t":{"a":{"t":{"b":{"v":9}}}}}}}}"#,
+    r#"{"data":{"t":{"g":{"t":{"leaf":{}}}}}}"#,
+];
+
+fn import_entries(v: &Value, path: &mut Vec<String>, out: &mut Vec<(Vec<String>, Entry)>) {
+    if let Some(val) = v.get("v") {
+        let e = match val.get("Cas").and_then(|c| c.as_array()) {
+            Some(a) if a.len() == 2 && val.as_object().map(|o| o.len() == 1).unwrap_or(false) => Entry::Cas(a[0].clone(), a[1].as_u64().unwrap_or(0)),
+            _ => Entry::Plain(val.clone()),
+        };
+        out.push((path.clone(), e));
+    }
+    if let Some(t) = v.get("t").and_then(|t| t.as_object()) {
+        for (k, c) in t {
+            path.push(k.clone());
+            import_entries(c, path, out);
+            path.pop();
+        }
+    }
 }
 
 const KEYS: [&str; 5] = ["a", "b", "a/a", "a/b", "a/a/b"];
@@ -632,6 +657,21 @@ impl Harness {
                     (Ok(v), Some(e)) if v == e.value() => {}
                     (Err(e), None) if expect_code(e) == "NoSuchValue" => {}
                     _ => return Some(json!({"request": format!("{r:?}"), "got": format!("{got:?}"), "expected": format!("{want:?}")})),
+                }
+            }
+            Req::Import(js) => {
+                let got = self.wb.import(js).await;
+                let tree: Value = serde_json::from_str(js).unwrap_or(Value::Null);
+                let mut want = vec![];
+                import_entries(&tree["data"], &mut vec![], &mut want);
+                match got {
+                    Ok(list) => {
+                        let g: BTreeSet<String> = list.iter().map(|(k, _)| k.clone()).collect();
+                        let w: BTreeSet<String> = want.iter().map(|(k, _)| k.join("/")).collect();
+                        if g != w { return Some(json!({"request": format!("{r:?}"), "got": format!("{g:?}"), "expected": format!("{w:?}")})); }
+                        for (k, e) in want { self.model.map.insert(k, e); }
+                    }
+                    Err(e) => return Some(json!({"request": format!("{r:?}"), "got": format!("{e:?}"), "expected": "Ok"})),
                 }
             }
             Req::PDelete(p) => {
@@ -763,17 +803,19 @@ fn all_reqs() -> Vec<Req> {
         v.push(Req::Delete(k));
     }
     for p in PATS { v.push(Req::PDelete(p)); }
+    for j in IMPORTS { v.push(Req::Import(j)); }
     v
 }
 
-fn run_seq(rt: &tokio::runtime::Runtime, seq: &[Req], with_ls: bool) -> Result<Option<Value>, ()> {
+fn run_seq(rt: &tokio::runtime::Runtime, seq: &[Req], with_ls: bool, keep_going: bool) -> Result<Option<Value>, ()> {
     catch_unwind(AssertUnwindSafe(|| rt.block_on(async {
         let mut h = Harness::new(with_ls).await;
+        let mut first = None;
         for (i, r) in seq.iter().enumerate() {
-            if let Some(w) = h.step(r).await { return Some(json!({"step": i, "reply": w})); }
-            if let Some(w) = h.read_back().await { return Some(json!({"step": i, "after": format!("{r:?}"), "read_back": w})); }
+            if let Some(w) = h.step(r).await { if !keep_going { return Some(json!({"step": i, "reply": w})); } first.get_or_insert(json!({"step": i, "reply": w})); }
+            if let Some(w) = h.read_back().await { if !keep_going { return Some(json!({"step": i, "after": format!("{r:?}"), "read_back": w})); } first.get_or_insert(json!({"step": i, "read_back": w})); }
         }
-        None
+        first
     }))).map_err(|_| ())
 }
 
@@ -784,15 +826,31 @@ fn lcg(seed: &mut u64) -> u64 {
 
 fn store_seqs(out: &mut Out, prop: &str, thorough: bool, seed: u64) {
     let rt = rt();
-    let reqs = all_reqs();
+    let mut reqs = all_reqs();
+    if !["C01", "C05", "C17"].contains(&prop) {
+        reqs.retain(|r| !matches!(r, Req::Import(j) if j.contains("leaf")));
+    }
+    let panics_only = prop == "C17";
     let depth = 2;
     let mut cases = 0usize;
     let contract = format!("{prop}/replies and every later read equal the reference map (set, cset, delete, pdelete; get, cget, pget, ls, pls, len, ls-subscriptions)");
     let mut run = |seq: &[Req], out: &mut Out| {
-        match run_seq(&rt, seq, true) {
+        match run_seq(&rt, seq, prop == "C05", panics_only) {
             Ok(None) => {}
-            Ok(Some(w)) => out.report(&contract, Some("UNLISTED"), json!({"requests": format!("{seq:?}"), "failure": w})),
-            Err(()) => out.report(&format!("{prop}/no request sequence panics the core"), Some("UNLISTED"), json!({"requests": format!("{seq:?}"), "failure": "panic"})),
+            Ok(Some(_)) if panics_only => {}
+            Ok(Some(w)) => {
+                let txt = w.to_string();
+                let has_import = seq.iter().any(|r| matches!(r, Req::Import(_)));
+                let phantom = seq.iter().any(|r| matches!(r, Req::Import(j) if j.contains("leaf")));
+                let f = if has_import && txt.contains("ls-subscription") { "F-C05-a" }
+                    else if phantom && (txt.contains("\"ls ") || txt.contains("\"pls ") || txt.contains("ls <root>")) { "F-C01-a" }
+                    else { "UNLISTED" };
+                out.report(&contract, Some(f), json!({"requests": format!("{seq:?}"), "failure": w}))
+            }
+            Err(()) => {
+                let phantom = seq.iter().any(|r| matches!(r, Req::Import(j) if j.contains("leaf")));
+                out.report(&format!("{prop}/no request sequence panics the core"), Some(if phantom { "F-C01-a" } else { "UNLISTED" }), json!({"requests": format!("{seq:?}"), "failure": "panic"}))
+            }
         }
     };
     // exhaustive up to `depth`
